@@ -65,11 +65,28 @@ def hash_sensitive_spec(r: random.Random, i: int) -> dict:
                        "deme_filters": [["demelimit", 3]], "tree_filters": [["levellimit", r.choice([4, 6])]]}}
 
 
+def nan_spec(r: random.Random, i: int) -> dict:
+    """an objective that is NaN on part of the box: individuals that cannot be compared are ordered with the help of
+    Python's global generator, which a seeded run has to control as well"""
+    root = r.choice([{"engine": "SOBOL", "pop": 16}, {"engine": "LHS", "pop": 16}, {"engine": "SEA", "pop": 14, "gens": 1},
+                     {"engine": "DE", "pop": 14, "gens": 1}, {"engine": "SEAX", "pop": 14, "gens": 1, "p_crossover": 0.7}])
+    child = r.choice([{"engine": "SEA", "pop": 6, "gens": 1}, {"engine": "DE", "pop": 6, "gens": 1},
+                      {"engine": "SEAX", "pop": 6, "gens": 1, "p_crossover": 0.7}])
+    child["lsc"] = {"kind": "MetaepochLimit", "n": 3}
+    return {"name": f"nan{i}", "seed": r.randrange(1, 10 ** 6), "dim": 2, "box": r.choice(["sym", "unit"]), "fn": "partial",
+            "maximize": False, "levels": [root, child], "hibernation": False, "gsc": {"kind": "MetaepochLimit", "n": 4},
+            "sprout": r.choice([{"kind": "nbc", "gen": 1.0, "trunc": 1.0, "fil": 0.5, "limit": 4},
+                                {"kind": "composed", "generator": "nbc", "gen": 1.0, "trunc": 1.0,
+                                 "deme_filters": [["demelimit", 3]], "tree_filters": [["levellimit", 4]]}]),
+            "idlecheck": False}
+
+
 def repeat_triples(seed: int, n: int, n_sub: int) -> list[tuple[dict, dict, dict | None]]:
     r = random.Random(seed * 11 + 5)
     out = []
     for i in range(n):
-        a = hash_sensitive_spec(r, i) if i < n_sub and i % 2 == 0 else random_spec(r, 10000 + i)
+        a = (hash_sensitive_spec(r, i) if i < n_sub and i % 2 == 0 else
+             nan_spec(r, i) if i % 6 == 5 else random_spec(r, 10000 + i))
         a["name"] = f"rep{i}"
         a.pop("maystall", None)
         a["max_consults"] = min(int(a.get("max_consults", 600)), 600)
